@@ -4,7 +4,7 @@
        annotations osmjson has no place for". Executable; used as the property oracle on what
        the implementation returned and as the statement language of the theorems. *)
 From Coq Require Import ZArith List String Ascii Bool.
-From Verif Require Import C05.Json C05.Schema C05.Model C05.Osm.
+From Verif Require Import C05.Json C05.Schema C05.Model C05.Osm C05.SortTags.
 From VerifGen Require Import GenJsonTags.
 Import ListNotations.
 Open Scope string_scope.
@@ -74,12 +74,12 @@ Definition osmjson_shape (j : json) : bool :=
   end.
 
 (* ---- (2) the equivalence ------------------------------------------------------------------
-   canon t v: tags sorted by key (so two tag lists with the same key/value pairs and distinct
+   canon t v: tags sorted by (an injective integer code of) the key (so two tag lists with the same key/value pairs and distinct
    keys have the same canon), way nodes reduced to their ids (Version, ChangesetID, Lat, Lon of
    a WayNode have no place in osmjson), json:"-" fields dropped.   v ~ v'  :=  canon v = canon v' *)
 Fixpoint canon (t : ty) (v : val) {struct t} : val :=
   match t, v with
-  | TTags, VList l => VList (map mk_tag (sort_kv (tag_pairs l)))
+  | TTags, VList l => VList (map mk_tag (sort_tags (tag_pairs l)))
   | TWayNodes fs, VList l => VList (map (fun n => mk_waynode fs (wn_id n)) l)
   | TMembers t', VList l | TSlice t', VList l => VList (map (canon t') l)
   | TPtr t', VSome x => VSome (canon t' x)
